@@ -33,3 +33,8 @@ Proof.
   - split; [split; reflexivity | reflexivity].
   - split; [split; intros K; discriminate K | exact Hh].
 Qed.
+
+Theorem host_hyps_real idna s : usv_list s -> Host.starts_with 91 s = false ->
+  host_agree host_parse_opaque host_display (spec_host_parser idna) spec_host_serializer s
+  /\ host_extra host_parse_opaque host_display (spec_host_parser idna) s.
+Proof. intros Hu Hb. exact (conj (host_agree_real idna s Hu Hb) (host_extra_real idna s Hu Hb)). Qed.
